@@ -486,7 +486,7 @@ fn seq_family(prop: &str) -> i32 {
     // backend healed and flush_meta then returned Ok
     let mut fault_json = json!(null);
     if prop == "C02" {
-        let (v, j) = faulted_histories_part(thorough);
+        let (v, j) = faulted_histories_part(thorough, "C02");
         run.add_all(v);
         fault_json = j;
     }
@@ -581,6 +581,9 @@ pub fn sched_curated(g: &Geo) -> Vec<(&'static str, &'static str, Vec<Op>, Vec<V
         // a flush zeroes a new data cluster whose first writer is still busy mapping the next slice, a second writer of that cluster arrives
         ("flush-zeroes-new-data-cluster-vs-second-writer", "libfmt", vec![], vec![vec![w(sl - cs, 2 * cs, 0x11)], vec![Op::Flush], vec![w(sl - cs, bs, 0x12)]]),
         ("flush-zeroes-new-data-cluster-vs-reader", "libfmt", vec![w(tb, bs, 0x51)], vec![vec![w(sl - cs, 2 * cs, 0x11)], vec![Op::Flush], vec![r(sl - cs, cs)]]),
+        // the slice a reader has locked is evicted by other lookups; a discard then works on a second copy of it
+        ("reader-slice-evicted-under-read", "libfmt", vec![w(0, cs, 0x51), w(tb, bs, 0x52), w(2 * tb.min(g.vsize() / 4), bs, 0x53), Op::Flush], vec![vec![r(0, cs)], vec![r(tb, bs), r(2 * tb.min(g.vsize() / 4), bs), Op::Discard { off: 0, len: cs }, w(2 * cs, cs, 0x11)]]),
+        ("writer-slice-evicted-under-write", "libfmt", vec![w(0, cs, 0x51), w(tb, bs, 0x52), w(2 * tb.min(g.vsize() / 4), bs, 0x53), Op::Flush], vec![vec![w(0, bs, 0x12)], vec![r(tb, bs), r(2 * tb.min(g.vsize() / 4), bs), Op::Discard { off: 0, len: cs }, w(2 * cs, cs, 0x11)]]),
         // shrink vs writers
         ("shrink-vs-writers", "libfmt", vec![w(0, cs, 0x51)], vec![vec![Op::Shrink], vec![w(cs, cs, 0x11)], vec![w(tb, bs, 0x12)]]),
         // write dirtying metadata while a flush is in progress, then nothing else (C18)
@@ -1166,6 +1169,19 @@ pub fn crash_family(prop: &str) -> i32 {
             }
         }
     }
+    // C04 quantifies over every history: also the ones in which a backend request failed. Every
+    // crash state behind the failed request, incl. the retried flush after the backend healed.
+    let mut faulted = json!(null);
+    if prop == "C04" {
+        let before = crate::lin::CRASH_IMAGES.load(std::sync::atomic::Ordering::Relaxed);
+        let (v, mut j) = faulted_histories_part(thorough, "C04");
+        run.add_all(v);
+        let n = crate::lin::CRASH_IMAGES.load(std::sync::atomic::Ordering::Relaxed) - before;
+        j["distinct_crash_images_checked"] = json!(n);
+        images_n += n;
+        distinct += n;
+        faulted = j;
+    }
     if prop == "C05" {
         // task 0 syncs while another task works on other ranges; every crash state after the sync
         let g = images::G10;
@@ -1212,6 +1228,7 @@ pub fn crash_family(prop: &str) -> i32 {
     }
     let cov = json!({
         "concurrent_part": conc,
+        "faulted_histories_part": faulted,
         "evaluations": images_n,
         "distinct_nontrivial": distinct,
         "rule": "for every transition of the explicit-state BFS over operation histories: the backend request log is cut at completed fsyncs; for every window touched by the transition every crash image = durable image x per-512-byte-block choice among {durable value, value after each un-synced request} is enumerated (complete product when <= 2^14 images, else all images within 3 block deviations of both extremes); distinct_nontrivial = images distinct by content (and sync point for C05) that were actually judged by the oracle",
@@ -1233,7 +1250,7 @@ pub fn crash_family(prop: &str) -> i32 {
 
 /// every history of the fault alphabet x every single request failing, heal, flush until Ok,
 /// then old device vs. a device opened on the same bytes (the C02 oracle inside fault.rs)
-pub fn faulted_histories_part(thorough: bool) -> (Vec<Violation>, Value) {
+pub fn faulted_histories_part(thorough: bool, prop: &str) -> (Vec<Violation>, Value) {
     use crate::fault::{all_histories, FaultScenario, FaultStats, Plan};
     let plans: Vec<(Geo, Vec<&str>, usize)> = if thorough {
         vec![(images::G9, vec!["libfmt", "data"], 3), (images::G10, vec!["libfmt", "data", "compressed", "backing"], 3)]
@@ -1246,7 +1263,7 @@ pub fn faulted_histories_part(thorough: bool) -> (Vec<Violation>, Value) {
     let mut capped = false;
     for (g, kinds, depth) in plans {
         for img in images::initial_images(&g, &kinds) {
-            let sc = FaultScenario { img: img.clone(), cfg: cfg_of(&g, "small"), cfg_name: "small".to_string() };
+            let sc = FaultScenario { img: img.clone(), cfg: cfg_of(&g, "small"), cfg_name: "small".to_string(), crash_oracle: prop == "C04" };
             let mut alphabet = images::crash_alphabet(&g);
             alphabet.retain(|o| !matches!(o, Op::Sync));
             let hists = all_histories(&alphabet, depth);
@@ -1265,7 +1282,7 @@ pub fn faulted_histories_part(thorough: bool) -> (Vec<Violation>, Value) {
                         }
                         v.extend(sc.run(h, &Plan::Kind('F'), &mut st));
                     }
-                    v.retain(|x| x.prop == "C02");
+                    v.retain(|x| x.prop == prop);
                     let mut seen = std::collections::HashSet::new();
                     v.retain(|x| seen.insert(x.class.clone()));
                     (st, v)
@@ -1322,7 +1339,7 @@ pub fn fault_check() -> i32 {
     let mut capped = false;
     for (g, kinds, cfgn, depth, pairs) in plans {
         for img in images::initial_images(&g, &kinds) {
-            let sc = FaultScenario { img: img.clone(), cfg: cfg_of(&g, cfgn), cfg_name: cfgn.to_string() };
+            let sc = FaultScenario { img: img.clone(), cfg: cfg_of(&g, cfgn), cfg_name: cfgn.to_string(), crash_oracle: false };
             let mut alphabet = images::crash_alphabet(&g);
             alphabet.retain(|o| !matches!(o, Op::Sync));
             let hists = all_histories(&alphabet, depth);
@@ -1385,7 +1402,7 @@ pub fn fault_check() -> i32 {
         }
     }
     for (img, g, alphabet, depth) in growth {
-        let sc = FaultScenario { img: img.clone(), cfg: cfg_of(&g, "small"), cfg_name: "small".to_string() };
+        let sc = FaultScenario { img: img.clone(), cfg: cfg_of(&g, "small"), cfg_name: "small".to_string(), crash_oracle: false };
         let hists = all_histories(&alphabet, depth);
         let results: Vec<(FaultStats, Vec<Violation>)> = hists
             .par_iter()
@@ -1755,6 +1772,8 @@ pub fn growth_check() -> i32 {
         (crate::extra::rb63_edge_image(), rb63_alpha, if thorough { 4 } else { 3 }, if thorough { 300 } else { 10 }, false),
         (crate::extra::rt_edge_image(), rt_alpha, if thorough { 4 } else { 3 }, if thorough { 600 } else { 15 }, false),
         (crate::extra::short_l1_image(), l1_alpha.clone(), if thorough { 4 } else { 3 }, if thorough { 600 } else { 15 }, false),
+        // relocation when the lowest free run is shorter than the new table
+        (crate::extra::short_l1_rb_edge_image(), vec![w(64 * tb, cs, 2), w(130 * tb, cs, 4), w(57 * cs, cs, 1), Op::Discard { off: 10 * cs, len: cs }, Op::Flush, Op::Sync, Op::Reopen], 3, if thorough { 300 } else { 10 }, false),
         // relocation of a two-cluster L1 table: the released clusters are reused at once by the same write
         (crate::extra::short_l1_two_image(), vec![w(130 * tb, cs, 4), w(191 * tb, 2 * cs, 5), w(64 * tb, cs, 2), Op::Read { off: 64 * tb, len: cs as usize }, Op::Flush, Op::Sync, Op::Reopen], 3, if thorough { 600 } else { 15 }, false),
         // short L1 whose cluster has room for the missing entries: extension in place
